@@ -383,11 +383,8 @@ func extras(std *regexp.Regexp, cre *coregex.Regex, eng *meta.Engine, h []byte, 
 		want = append(want, obs.Rec{API: api, Val: w})
 		got = append(got, obs.Rec{API: api, Val: obs.Call(g)})
 	}
-	// Count: n<=0 counts all (documented), n>0 at most n
+	// Count: as many as the enumeration yields for limit n (none for n==0, all for n<0)
 	cnt := len(all)
-	if n <= 0 {
-		cnt = len(allNeg)
-	}
 	add("Count"+sn, strconv.Itoa(cnt), func() string { return strconv.Itoa(cre.Count(h, n)) })
 	add("CountString"+sn, strconv.Itoa(cnt), func() string { return strconv.Itoa(cre.CountString(s, n)) })
 	// AppendAllIndex with four dst shapes
